@@ -414,7 +414,10 @@ theorem step_version (s : Scan) (l : Str) :
       if isBlank l then (s.haveVersion, s.versionLine)
       else if isVersionLine l && !s.haveVersion then (true, some l)
       else (s.haveVersion, s.versionLine) := by
+  have e : (!s.haveVersion || !Gen.Log.versionOnlyIfUnset) = !s.haveVersion := by
+    simp [Gen.Log.versionOnlyIfUnset]
   unfold Scan.step
+  rw [e]
   by_cases hb : isBlank l = true
   · simp [hb]
   · simp only [hb, Bool.false_eq_true, if_false]
@@ -519,7 +522,9 @@ theorem assignPerf_thermo (nb : List Str) (isOld : Bool) (j : Nat) (hs ks fs : L
 /-! ### `Log.read` taken apart -/
 
 /-- the state `read` starts from. -/
-def startState (st : LogState) (append : Bool) : LogState := if append then st else LogState.empty
+def startState (st : LogState) (append : Bool) : LogState := if append then st else st.reset
+
+theorem reset_eq (st : LogState) : st.reset = LogState.empty := rfl
 
 /-- the single pass of `read` on a log. -/
 def passOf (st : LogState) (append : Bool) (lines : List Str) : Scan :=
